@@ -61,6 +61,7 @@ class TimeoutDriver:
         self.now = 0
         self.seen = 0
         self.fn_state = "running"
+        self.selfc_done = False
         self.gate = None
         self.got = None
         self.got_at = None
@@ -75,6 +76,16 @@ class TimeoutDriver:
                 drv.warmup = False             # the next invocation is the call under test
                 await drv.by_gate              # another call through the same wrapper, overlapping the one under test
                 return "bystander"
+            if not drv.selfc_done:
+                # before anything else the function is cancelled from INSIDE (an inner watchdog, a cancel scope that never
+                # calls uncancel()) and swallows that: its task goes on with a cancellation request on its books that the
+                # wrapper did not make - the function's own outcome is still what the caller gets
+                drv.selfc_done = True
+                asyncio.current_task().cancel()
+                try:
+                    await asyncio.sleep(0)
+                except asyncio.CancelledError:
+                    pass
             while True:
                 gate = drv.gate = loop.create_future()
                 try:
@@ -245,7 +256,7 @@ def run(rep, work, tier, seed):
     for i in range(reps):  # each pass draws different callback orders for the tie instants
         os.environ["VERIF_SEED"] = str(seed + i)
         leg_r(rep, work, SPEC, f"conf_{tier}" + (f"_pass{i}" if i else ""), cfg_text(c, invariants=INVS),
-              TimeoutDriver, internal=INTERNAL)
+              TimeoutDriver, internal=INTERNAL, opt=True)
     os.environ["VERIF_SEED"] = str(seed)
     rep.assumptions += [
         "the wrapped function is a gated double that ends with value / Exception / BaseException / self-raised "
